@@ -5,7 +5,8 @@
 use bytes::Bytes;
 use common::Rng;
 
-use crate::lanes::{Kind, LaneSpec, Op};
+use crate::items::StoreSpec;
+use crate::lanes::{InitFault, Kind, LaneSpec, Op};
 use crate::remote::{Pace, ReqKind};
 
 #[derive(Clone, Copy, Debug, PartialEq, Eq)]
@@ -14,6 +15,30 @@ pub enum Focus {
     Mixed,
     /// Mostly persistent lanes registered by the running agent; slower remotes.
     Dynamic,
+}
+
+/// What the agent runs on.
+#[derive(Clone, Copy, Debug, PartialEq, Eq, Hash)]
+pub enum StoreMode {
+    /// `run_agent_with_store` on the recording store.
+    Recording,
+    /// `run_agent`: no store at all.
+    NoStore,
+    /// `run_agent_with_store` on the recording store whose `id_for` answers `NoStoreAvailable`.
+    IdUnavailable,
+    /// `run_agent_with_store` on swimos_api's `StoreDisabled` (a `NodePersistence` that keeps nothing).
+    DisabledImpl,
+}
+
+impl StoreMode {
+    pub fn name(&self) -> &'static str {
+        match self {
+            StoreMode::Recording => "recording",
+            StoreMode::NoStore => "run-agent-without-store",
+            StoreMode::IdUnavailable => "id-for-no-store-available",
+            StoreMode::DisabledImpl => "store-disabled-impl",
+        }
+    }
 }
 
 #[derive(Clone, Debug)]
@@ -35,6 +60,12 @@ pub enum Step {
     Quiesce,
     /// Virtual time moves on by this many ms (nothing else happens meanwhile).
     Advance(u64),
+    /// Tell the agent task to request this store item now (`add_store` from the running agent).
+    RegisterStore(usize),
+    /// A change of a store item (unique body): one `StoreResponse` frame.
+    StoreApply { store: usize, op: Op },
+    /// Every remote reads at full speed from here on.
+    Drain,
     /// A request for a lane the agent does not have. A command only keeps the read task awake (its
     /// inactivity timer starts again; the write task is not told); the other kinds are also answered
     /// by the write task (its timer starts again, an outstanding stop vote is rescinded).
@@ -87,6 +118,30 @@ pub struct Plan {
     pub store_fails_from: Option<usize>,
     /// The store read (restoration of a lane at registration) with this index fails once.
     pub store_read_fails_at: Option<usize>,
+    // ---- extensions (empty / default in the parts `mixed` and `dynamic`) ----
+    /// Store items, how each is requested in this incarnation and its planned misbehaviour.
+    pub stores: Vec<StoreSpec>,
+    pub store_dynamic: Vec<bool>,
+    pub store_faults: Vec<Option<InitFault>>,
+    /// Planned misbehaviour of lane `i` in the initialisation handshake.
+    pub lane_faults: Vec<Option<InitFault>>,
+    pub store_mode: StoreMode,
+    /// The runtime's `item_init_timeout` in ms of virtual time.
+    pub item_init_timeout_ms: u64,
+    /// `id_for` of this name fails (IO error).
+    pub id_fails_for: Option<String>,
+    /// Index of the first step of the closing phase of a degraded-mode script (a fresh remote syncs
+    /// every lane, the lanes change once more, everything quiesces).
+    pub closing_from: Option<usize>,
+}
+
+pub const DEFAULT_ITEM_INIT_TIMEOUT_MS: u64 = 5000;
+
+impl Plan {
+    pub fn has_init_phase_fault(&self) -> bool {
+        let hard = |f: &Option<InitFault>| matches!(f, Some(x) if !matches!(x, InitFault::DropPromise));
+        self.lane_faults.iter().enumerate().any(|(l, f)| hard(f) && !self.dynamic[l]) || self.store_faults.iter().enumerate().any(|(i, f)| hard(f) && !self.store_dynamic[i])
+    }
 }
 
 pub const KEYS: [&str; 4] = ["k0", "k1", "k2", "k3"];
@@ -386,6 +441,14 @@ pub fn plan(rng: &mut Rng, focus: Focus, lanes: &[LaneSpec], incarnation: u32, m
         agent_jitter_per_mille: *rng.pick(&[0u64, 0, 100, 300]),
         store_fails_from: if rng.chance(1, 10) { Some(rng.usize_below(16)) } else { None },
         store_read_fails_at: if rng.chance(1, 8) { Some(rng.usize_below(4)) } else { None },
+        stores: vec![],
+        store_dynamic: vec![],
+        store_faults: vec![],
+        lane_faults: vec![None; n],
+        store_mode: StoreMode::Recording,
+        item_init_timeout_ms: DEFAULT_ITEM_INIT_TIMEOUT_MS,
+        id_fails_for: None,
+        closing_from: None,
     }
 }
 
@@ -428,5 +491,298 @@ pub fn probe_plan(rng: &mut Rng, focus: Focus, lanes: &[LaneSpec], incarnation: 
         agent_jitter_per_mille: 0,
         store_fails_from: None,
         store_read_fails_at: None,
+        stores: vec![],
+        store_dynamic: vec![],
+        store_faults: vec![],
+        lane_faults: vec![None; n],
+        store_mode: StoreMode::Recording,
+        item_init_timeout_ms: DEFAULT_ITEM_INIT_TIMEOUT_MS,
+        id_fails_for: None,
+        closing_from: None,
     }
+}
+
+// =================================================================================================
+// Extensions: store items, misbehaving items in the initialisation handshake, degraded persistence.
+// The generators below build on `plan` / `probe_plan` (whose use of the generator is unchanged) and
+// add steps and settings afterwards.
+// =================================================================================================
+
+/// A wider key space for the maps of the extension parts (so that a hand-over of a stored map is
+/// longer than the small channel buffers).
+pub const WIDE_KEYS: [&str; 12] = ["k0", "k1", "k2", "k3", "k4", "k5", "k6", "k7", "k8", "k9", "ka", "kb"];
+
+/// A change of a store item. The bodies are always unique (no empty ones): the store log of an
+/// item is compared with the item's writes position by position, and a write that is lost must not
+/// be mistaken for an equal later one.
+fn item_op(rng: &mut Rng, kind: Kind, unique: &mut Unique) -> Op {
+    match kind {
+        Kind::Value => Op::Set(unique.next()),
+        Kind::Map => {
+            let key = Bytes::from_static(rng.pick(&WIDE_KEYS).as_bytes());
+            match rng.below(12) {
+                0 => Op::Clr,
+                1 | 2 => Op::Rem(key),
+                _ => Op::Upd(key, unique.next()),
+            }
+        }
+    }
+}
+
+/// The store items of a case: names are fixed, the kind is the one the item has in the first
+/// incarnation. Now and then two items share a name with opposite kinds.
+pub fn store_specs(rng: &mut Rng) -> Vec<StoreSpec> {
+    let n = rng.range(1, 3) as usize;
+    let mut v: Vec<StoreSpec> = (0..n)
+        .map(|i| {
+            let kind = if rng.chance(2, 5) { Kind::Value } else { Kind::Map };
+            StoreSpec { name: format!("s{i}"), kind }
+        })
+        .collect();
+    if rng.chance(1, 5) {
+        let first = v[0].clone();
+        v.push(StoreSpec { name: first.name, kind: if first.kind == Kind::Value { Kind::Map } else { Kind::Value } });
+    }
+    v
+}
+
+fn aliased(stores: &[StoreSpec], i: usize) -> bool {
+    stores.iter().enumerate().any(|(j, s)| j != i && s.name == stores[i].name)
+}
+
+fn insert_at(steps: &mut Vec<Step>, from: usize, rng: &mut Rng, step: Step) -> usize {
+    let at = from + rng.usize_below(steps.len() - from + 1);
+    steps.insert(at, step);
+    at
+}
+
+/// Adds the store items to a plan: how each is requested, the request step of the dynamic ones and
+/// `writes` changes of the items, spread over the script (a change that comes before the item
+/// exists waits for it).
+fn add_store_items(rng: &mut Rng, p: &mut Plan, stores: Vec<StoreSpec>, dynamic_share: (u64, u64), writes: usize, unique: &mut Unique) {
+    let n = stores.len();
+    p.store_dynamic = (0..n).map(|_| rng.chance(dynamic_share.0, dynamic_share.1)).collect();
+    p.store_faults = vec![None; n];
+    p.stores = stores;
+    for i in 0..n {
+        if p.store_dynamic[i] {
+            let upto = p.steps.len() * 2 / 3;
+            let at = rng.usize_below(upto + 1);
+            p.steps.insert(at, Step::RegisterStore(i));
+            if rng.chance(1, 3) {
+                p.steps.insert(at + 1, Step::Quiesce);
+            }
+        }
+    }
+    for _ in 0..writes {
+        let i = rng.usize_below(n);
+        let from = p.steps.iter().position(|s| matches!(s, Step::RegisterStore(j) if *j == i)).map_or(0, |x| x + 1);
+        let op = item_op(rng, p.stores[i].kind, unique);
+        let at = insert_at(&mut p.steps, from, rng, Step::StoreApply { store: i, op });
+        // Now and then everything runs before the script goes on: by then the write has to be in the store.
+        if rng.chance(1, 4) {
+            p.steps.insert(at + 1, Step::Quiesce);
+        }
+    }
+}
+
+/// Part `stores`: the lanes' conversations of `Mixed`, plus store items requested during
+/// initialisation or by the running agent. From the second incarnation on an item may be requested
+/// with the kind it did not have before (the store holds state of the other kind under its id).
+pub fn plan_stores(rng: &mut Rng, lanes: &[LaneSpec], stores: &[StoreSpec], incarnation: u32, max_len: usize, unique: &mut Unique) -> Plan {
+    let mut p = plan(rng, Focus::Mixed, lanes, incarnation, max_len, unique);
+    let mut now: Vec<StoreSpec> = stores.to_vec();
+    if incarnation > 0 {
+        for i in 0..now.len() {
+            if !aliased(stores, i) && rng.chance(1, 5) {
+                now[i].kind = if now[i].kind == Kind::Value { Kind::Map } else { Kind::Value };
+            }
+        }
+    }
+    let writes = rng.range(4, (max_len / 2).max(5) as u64) as usize;
+    add_store_items(rng, &mut p, now, (3, 4), writes, unique);
+    // A read failure would hit the store items' restoration as well: keep it (the runtime gives up),
+    // but less often, so that most incarnations write through their items.
+    if p.store_read_fails_at.is_some() && rng.chance(1, 2) {
+        p.store_read_fails_at = None;
+    }
+    p
+}
+
+/// A restart that only looks, with the store items of the incarnation that is probed.
+pub fn probe_plan_ext(rng: &mut Rng, lanes: &[LaneSpec], of: &Plan, incarnation: u32) -> Plan {
+    let mut p = probe_plan(rng, Focus::Mixed, lanes, incarnation);
+    let n = of.stores.len();
+    p.stores = of.stores.clone();
+    p.store_dynamic = (0..n).map(|_| rng.chance(2, 3)).collect();
+    p.store_faults = vec![None; n];
+    p.store_mode = of.store_mode;
+    for i in 0..n {
+        if p.store_dynamic[i] {
+            // Before the final quiesce; after the remote attached.
+            let at = 1 + rng.usize_below(p.steps.len() - 1);
+            p.steps.insert(at, Step::RegisterStore(i));
+        }
+    }
+    p
+}
+
+fn pick_fault(rng: &mut Rng, t: u64) -> InitFault {
+    match rng.below(16) {
+        0 | 1 => InitFault::Mute,
+        2 | 3 => InitFault::NeverReads,
+        4 | 5 => InitFault::DropAfter(rng.usize_below(4)),
+        6 | 7 => InitFault::DropAtComplete,
+        8 => InitFault::DropWriterAtComplete,
+        9 | 10 => InitFault::Garbage,
+        11 | 12 => InitFault::DropPromise,
+        _ => InitFault::SlowAck(*rng.pick(&[t / 4, t / 2, t.saturating_sub(1), t + 1, 2 * t])),
+    }
+}
+
+/// Sets misbehaviours of one or two persistent items (lanes / store items) of a plan, a short item
+/// initialisation time-out, and a closing stretch in which a remote addresses the lanes concerned.
+fn add_init_faults(rng: &mut Rng, p: &mut Plan) {
+    let t = *rng.pick(&[20u64, 60, 200]);
+    p.item_init_timeout_ms = t;
+    let persistent: Vec<usize> = (0..p.lanes.len()).filter(|l| !p.lanes[*l].transient).collect();
+    let mut faulty_lanes = vec![];
+    for _ in 0..rng.range(1, 2) {
+        let on_store = !p.stores.is_empty() && (persistent.is_empty() || rng.chance(1, 3));
+        if on_store {
+            let i = rng.usize_below(p.stores.len());
+            if rng.chance(1, 8) && p.id_fails_for.is_none() {
+                p.store_faults[i] = Some(InitFault::IdError);
+                p.id_fails_for = Some(p.stores[i].name.clone());
+            } else {
+                p.store_faults[i] = Some(pick_fault(rng, t));
+            }
+        } else if !persistent.is_empty() {
+            let l = *rng.pick(&persistent);
+            if rng.chance(1, 10) && p.id_fails_for.is_none() {
+                p.lane_faults[l] = Some(InitFault::IdError);
+                p.id_fails_for = Some(p.lanes[l].name.clone());
+            } else {
+                p.lane_faults[l] = Some(pick_fault(rng, t));
+            }
+            faulty_lanes.push(l);
+        }
+    }
+    // No other injected failures in the same incarnation.
+    p.store_fails_from = None;
+    p.store_read_fails_at = None;
+    // Later: the handshakes are over one way or the other; a fresh remote addresses every lane.
+    let _ = faulty_lanes;
+    p.steps.push(Step::Advance(3 * t + 5));
+}
+
+/// The closing stretch: a fresh fast remote (number 0) syncs every lane that was registered, the
+/// lanes change once more, everything quiesces. What that remote has then been shown is the lanes'
+/// state (`oracle_ext::closing_view`).
+fn push_closing(rng: &mut Rng, p: &mut Plan, unique: &mut Unique) {
+    p.closing_from = Some(p.steps.len());
+    p.steps.push(Step::Drain);
+    p.steps.push(Step::DropRemote(0));
+    p.steps.push(Step::Attach(0));
+    let n = p.lanes.len();
+    let registered: Vec<usize> = (0..n).filter(|l| !p.dynamic[*l] || p.steps.iter().any(|s| matches!(s, Step::Register(x) if x == l))).collect();
+    for l in &registered {
+        p.steps.push(Step::Sync(0, *l));
+    }
+    p.steps.push(Step::Quiesce);
+    for _ in 0..rng.range(1, 4) {
+        if registered.is_empty() {
+            break;
+        }
+        let l = *rng.pick(&registered);
+        let op = lane_op(rng, &p.lanes[l], unique);
+        p.steps.push(Step::Apply { lane: l, op, defer: false });
+    }
+    p.steps.push(Step::Quiesce);
+    p.steps.push(Step::Quiesce);
+    p.drain_before_end = true;
+}
+
+/// Part `init-faults`, first incarnation: fills the store (wide maps, small lane buffers come from
+/// the lane specs), no misbehaviour. Later incarnations: `Mixed` conversations with one or two
+/// misbehaving items.
+pub fn plan_init_faults(rng: &mut Rng, lanes: &[LaneSpec], stores: &[StoreSpec], incarnation: u32, max_len: usize, unique: &mut Unique) -> Plan {
+    let mut p = plan(rng, Focus::Mixed, lanes, incarnation, max_len, unique);
+    let writes = rng.range(3, 10) as usize;
+    add_store_items(rng, &mut p, stores.to_vec(), (2, 3), writes, unique);
+    if incarnation == 0 {
+        // The store is to hold something: no injected failures, every lane exists from the start and
+        // its map is filled early.
+        p.store_fails_from = None;
+        p.store_read_fails_at = None;
+        let mut fill = vec![];
+        for l in 0..lanes.len() {
+            if lanes[l].transient {
+                continue;
+            }
+            if p.dynamic[l] && !p.steps.iter().any(|s| matches!(s, Step::Register(x) if *x == l)) {
+                continue;
+            }
+            for _ in 0..rng.range(3, 10) {
+                let op = match lanes[l].kind {
+                    Kind::Value => Op::Set(unique.next()),
+                    Kind::Map => Op::Upd(Bytes::from_static(rng.pick(&WIDE_KEYS).as_bytes()), unique.next()),
+                };
+                fill.push(Step::Apply { lane: l, op, defer: false });
+            }
+        }
+        // After the registrations of the first third of the script.
+        let at = p.steps.len() / 3;
+        for (k, s) in fill.into_iter().enumerate() {
+            p.steps.insert((at + k).min(p.steps.len()), s);
+        }
+        p.steps.push(Step::Quiesce);
+    } else {
+        add_init_faults(rng, &mut p);
+        push_closing(rng, &mut p, unique);
+    }
+    p
+}
+
+/// A probe restart of the part `init-faults`: the looking restart, with misbehaving items.
+pub fn probe_plan_init_faults(rng: &mut Rng, lanes: &[LaneSpec], of: &Plan, incarnation: u32) -> Plan {
+    let mut p = probe_plan_ext(rng, lanes, of, incarnation);
+    // The probe registers and syncs; with a misbehaving item the syncs come after the handshakes ended.
+    add_init_faults(rng, &mut p);
+    let mut none = Unique(u64::MAX / 2);
+    push_closing(rng, &mut p, &mut none);
+    p
+}
+
+/// Part `no-store`: the `Mixed` conversations on an agent that has no usable store although its
+/// lanes are declared persistent and it requests store items; then a closing stretch: a fresh fast
+/// remote syncs every lane, the lanes change once more, everything quiesces.
+pub fn plan_nostore(rng: &mut Rng, mode: StoreMode, lanes: &[LaneSpec], stores: &[StoreSpec], incarnation: u32, max_len: usize, unique: &mut Unique) -> Plan {
+    let mut p = plan(rng, Focus::Mixed, lanes, incarnation, max_len, unique);
+    p.store_mode = mode;
+    p.store_fails_from = None;
+    p.store_read_fails_at = None;
+    let writes = rng.range(2, 8) as usize;
+    add_store_items(rng, &mut p, stores.to_vec(), (1, 2), writes, unique);
+    // Mostly without the runtime stopping by itself in the middle (then the closing stretch is not reached).
+    if p.ending != Ending::Timeout && rng.chance(2, 3) {
+        p.timeout_ms = None;
+    }
+    push_closing(rng, &mut p, unique);
+    p
+}
+
+/// Lane specs of the extension parts: mostly persistent; `small`: small lane buffers (a stored map
+/// does not fit into the channel at once).
+pub fn lane_specs_ext(rng: &mut Rng, small: bool, all_persistent: bool) -> Vec<LaneSpec> {
+    let mut v = lane_specs(rng, Focus::Dynamic);
+    for l in v.iter_mut() {
+        if all_persistent {
+            l.transient = false;
+        }
+        if small {
+            l.in_buf = *rng.pick(&[8usize, 16, 24, 64, 4096]);
+        }
+    }
+    v
 }
